@@ -35,10 +35,11 @@ CURVES = ['UnitSquare', 'PiSquare', 'LShape', 'Circle', 'UnitInterval']
 def plan(tier, seed):
     specs = []
     for ci, c in enumerate(CURVES):
-        specs.append({'name': 'sched-%s' % c, 'mode': 'sched', 'curve': c, 'rseed': seed * 101 + ci,
-                      'workers': list(range(1, 17)) if tier == 'thorough' else [1, 2, 3, 5, 8, 16], 'delays': 3 if tier == 'thorough' else 2,
-                      'n_ops': 26})
-        specs.append({'name': 'fault-%s' % c, 'mode': 'fault', 'curve': c, 'rseed': seed * 103 + ci, 'n_ops': 22})
+        for k in range(1 if tier == 'quick' else 4):
+            specs.append({'name': 'sched-%s-%d' % (c, k), 'mode': 'sched', 'curve': c, 'rseed': seed * 101 + ci + 17 * k,
+                          'workers': list(range(1, 17)) if tier == 'thorough' else [1, 2, 3, 5, 8, 16], 'delays': 3 if tier == 'thorough' else 2,
+                          'n_ops': 26 + 12 * k})
+            specs.append({'name': 'fault-%s-%d' % (c, k), 'mode': 'fault', 'curve': c, 'rseed': seed * 103 + ci + 19 * k, 'n_ops': 22 + 10 * k})
     for c in ('UnitSquare', 'LShape', 'PiSquare'):
         specs.append({'name': 'm0-%s' % c, 'mode': 'm0', 'curve': c, 'rseed': seed * 107, 'workers': [1, 3, 16] if tier == 'quick' else [1, 2, 4, 7, 16]})
     specs.append({'name': 'keys', 'mode': 'keys', 'rseed': seed})
